@@ -13,6 +13,11 @@ CLAIMED = {
    note="Errors are assumed to travel through returns and fmt.Errorf only; correlated-flag idiom recognised; interval reasoning as in C08.",
    technique="static analysis: SSA path rule (sentinel errors returned) + status table rule + dependence slices + interval rule on wrap index",
    ref="DESIGN.md §2 E4/E5, §3 C04"),
+ "C05": dict(
+   text="Static analysis of structural necessary conditions: no operation on the data path from the newest listed segment to the stored publishTime, nor in the comparison deciding 'after the stop time', rounds to whole seconds (backward slice over SSA; roundings accepted only on millisecond-scaled operands); every successful return of the MPD generator is decided by the after-stop test, whose true side is dominated by the call making the MPD static with a duration depending on stop and start time; the newest-segment record used for publishTime is updated wherever a timeline entry with a new duration is created. Monotonicity of window edges and publishTime<->content identity are not decided.",
+   note="Explicit data flow only; integer division is not treated as rounding; the millisecond-scaled idiom is recognised syntactically on the rounded operand (product with a constant >= 1000).",
+   technique="static analysis: backward slices over SSA (no-coarse-rounding rule) + dominance/control rule on returns + paired-update rule",
+   ref="DESIGN.md §3 C05"),
  "C07": dict(
    text="Static lock-discipline and aliasing analysis of the livesim2 server: every write to server-lifetime state (including bytes that library objects keep aliasing) by request-serving code, and every access that may run in parallel with it, must hold the owning mutex; no handler-reachable source of non-determinism; every early-exit range over a server map is a reviewed instance; sync.Pool objects are not used after Put. Necessary conditions of purity and race-freedom for all histories and interleavings; byte equality of responses is not decided.",
    note="Origin/alias analysis is field-based and type-directed (no points-to analysis available); library aliasing and mutators are the listed ones; VTA call graph; known findings: unsynchronised ingest-manager tables.",
